@@ -101,15 +101,18 @@ def gen_plan(base_seed, i, tier):
         # malformed rows and pass-through columns (also with missing values) in cached runs
         from .c05 import POISON
 
-        bad = [rng.choice(POISON[k]) for k in rng.sample(["unparsable", "no_sep", "reagent_style", "two_sep", "empty_string"], 2)]
+        kinds = ["unparsable", "no_sep", "reagent_style", "two_sep", "empty_string"]
         as_dicts = rng.random() < 0.5
+        slots = sorted(rng.sample(range(0, 6), 2))  # malformed rows sit at the same positions in every run ...
+        vary = rng.random() < 0.6                   # ... but their content may differ from run to run
+        fixed = [rng.choice(POISON[rng.choice(kinds)]) for _ in slots]
         for st in steps:
             if st["op"] != "run":
                 continue
             rows = list(st["rows"])
-            for b in bad:
-                if rng.random() < 0.7:
-                    rows.insert(rng.randint(0, len(rows)), b)
+            for j, pos in enumerate(slots):
+                b = rng.choice(POISON[rng.choice(kinds)]) if vary else fixed[j]
+                rows.insert(min(pos, len(rows)), b)
             if as_dicts:
                 rows = [{"reaction": r, "tag": "t%d" % (H(r) % 97), "val": (None if H(r, "v") % 3 == 0 else H(r, "v") % 11)} for r in rows]
             st["rows"] = rows
